@@ -26,7 +26,12 @@ sys.path.insert(0, os.path.dirname(os.path.dirname(os.path.abspath(__file__))))
 from vlib import harness  # noqa: E402
 
 PROP = "C07"
-EXCLUDE = set()  # input classes excluded by construction behind a finding (none)
+# input classes excluded by construction behind a finding; set C07_EXCLUDE=none to re-open them
+#  same-element-siblings: one call borrows two sub-places of the same struct/tuple-typed array element and
+#  one of them is not itself below a further subscript (`g(ss[0].xs, ss[0].ys)`): accepted, then panics
+#  "Array element is already borrowed" (documented upstream in tests/integration/test_array.py::test_struct_array)
+EXCLUDE = set() if os.environ.get("C07_EXCLUDE") == "none" else {"same-element-siblings"}
+SIBLING_BUCKET = "panic.two_args_below_one_array_element"
 CASES_PER_PROGRAM = 12
 
 HEADER = """from guppylang import guppy
@@ -101,6 +106,23 @@ def may_overlap(a, b):
     return True
 
 
+def sibling_conflict(a, b):
+    """non-overlapping places below the same (possibly equal index) struct/tuple-typed array element, at
+    least one of them without a further subscript: the element stays borrowed for the whole call."""
+    if a[0] != b[0]:
+        return False
+    for n, (x, y) in enumerate(zip(a[1], b[1])):
+        same = x == y or (x[0] == "i" and y[0] == "i" and not (str(x[1]).isdigit() and str(y[1]).isdigit()))
+        if not same:
+            return False
+        if x[0] == "i":
+            ra, rb = a[1][n + 1:], b[1][n + 1:]
+            if ra and rb and ra[0][0] in "ft" and rb[0][0] in "ft":
+                if not any(st[0] == "i" for st in ra) or not any(st[0] == "i" for st in rb):
+                    return True
+    return False
+
+
 def shape_of(steps):
     if not steps:
         return "var"
@@ -122,6 +144,8 @@ class Gen:
         self.types = QUBIT_TYPES if self.leaf == "qubit" else INT_TYPES
         self.counter = 0
         self.funcs = []
+        self.excluded = 0
+        self.sibling_used = False
 
     def pick(self, xs):
         return xs[self.r.randrange(len(xs))]
@@ -160,8 +184,14 @@ class Gen:
             for attempt in range(3):
                 steps = self.concretise(p, ctx, literal or attempt == 2)
                 pl = (name, steps)
-                if not any(may_overlap(pl, t) for t in taken):
-                    return pl
+                if any(may_overlap(pl, t) for t in taken):
+                    continue
+                if any(sibling_conflict(pl, t) for t in taken):
+                    if "same-element-siblings" in EXCLUDE:
+                        self.excluded += 1
+                        continue
+                    self.sibling_used = True
+                return pl
         return None
 
     # --- statements (each: dict(lines, kind, depth, callee, shapes))
@@ -270,6 +300,7 @@ class Gen:
                         self.pick(["j", str(self.r.randrange(self.N)), f"{self.N - 1} - j"]),
                         self.pick(["v", f"v + {self.fresh()}", str(self.fresh())])]
             call = f"{f['name']}({', '.join([render(*p) for p in taken] + ints)})"
+            sib = len(taken) == 2 and sibling_conflict(taken[0], taken[1])
             lines = [call]
             if f["ret"]:
                 if ctx == "case":
@@ -278,7 +309,7 @@ class Gen:
                 else:
                     lines = [f"w{self.counter} = {call}"]
             return {"lines": lines, "kind": "call", "depth": max(len(p[1]) for p in taken), "callee": f["name"],
-                    "shapes": [shape_of(p[1]) for p in taken], "nargs": len(taken)}
+                    "shapes": [shape_of(p[1]) for p in taken], "nargs": len(taken), "sibling": sib}
         return None
 
     def stmt(self, roots, ctx, level, nest=0):
@@ -296,7 +327,9 @@ class Gen:
             cond = self.pick(["i == 0", "j > 0", "v % 2 == 0", "j == 1"])
             s = {"lines": [f"if {cond}:"] + ["    " + ln for ln in a["lines"]] + ["else:"] + ["    " + ln for ln in b["lines"]],
                  "kind": "if", "depth": max(a["depth"], b["depth"]), "shapes": a["shapes"] + b["shapes"],
-                 "callees": [x.get("callee") for x in (a, b) if x.get("callee")] + a.get("callees", []) + b.get("callees", [])}
+                 "callees": [x.get("callee") for x in (a, b) if x.get("callee")] + a.get("callees", []) + b.get("callees", []),
+                 "sibling": bool(a.get("sibling") or b.get("sibling")),
+                 "nargs": max(a.get("nargs", 0), b.get("nargs", 0))}
         return s or self.stmt_write(roots, ctx) or {"lines": ["pass"], "kind": "pass", "depth": 0, "shapes": []}
 
     def function(self, level):
@@ -428,7 +461,7 @@ def generate(rnd):
         for _ in range(cnt):
             g.function(level)
     cases = [g.case() for _ in range(CASES_PER_PROGRAM)]
-    return {"leaf": g.leaf, "N": g.N, "M": g.M, "funcs": g.funcs, "cases": cases}
+    return {"leaf": g.leaf, "N": g.N, "M": g.M, "funcs": g.funcs, "cases": cases, "excluded": g.excluded}
 
 
 # ------------------------------------------------------------------ rendering
@@ -539,6 +572,8 @@ def run_program(src, n_qubits):
         return "crash", (runner.crash_bucket(out.exc), out.message[-1500:])
     if out.kind == "panic":
         return "panic", (out.message.split(":")[-1].strip()[:60], out.message[:400])
+    if out.kind == "invalid":
+        return "invalid", (out.title, out.message[:1200])
     return out.kind, (out.title, out.message[-1500:])
 
 
@@ -669,8 +704,15 @@ def features(prog1):
     return f
 
 
+def has_sibling_call(prog1):
+    def walk(stmts):
+        return any(st.get("sibling") for st in stmts)
+
+    return walk(prog1["cases"][0]["body"]) or any(walk(f["body"]) for f in prog1["funcs"])
+
+
 def bucket_name(kind, feats):
-    if kind.startswith("crash:"):
+    if kind.startswith("crash:") or kind == SIBLING_BUCKET:
         return kind  # exception type + innermost compiler frame is the root-cause signature
     return kind + ":" + ":".join(sorted(feats))
 
@@ -730,6 +772,8 @@ def worker(ctx):
         count[0] += 1
         rnd = random.Random(f"{rnd0.getrandbits(64)}:{ctx.seed}:{ctx.shard}:{count[0]}")
         prog = generate(rnd)
+        if prog["excluded"]:
+            ctx.exclude("same-element-siblings: two borrowed arguments below one struct/tuple array element", prog["excluded"])
         idxs = list(range(len(prog["cases"])))
         res = evaluate(prog, idxs)
         for k in idxs:
@@ -749,23 +793,26 @@ def worker(ctx):
             if not r:
                 continue
             kind, detail = r
+            raw_kind = kind
+            if kind == "panic.unexpected" and "already borrowed" in detail and has_sibling_call(p1):
+                kind = SIBLING_BUCKET
             small = p1
             feats = features(p1)
             sig = next((sg for sg, (k2, f2) in known.items() if k2 == kind and f2 <= feats), None)
             if sig is None:
                 if shrink_spent[0] < SHRINK_CAP and not ctx.out_of_time(0.6):
                     t0 = time.monotonic()
-                    small = minimise(p1, kind, t0 + min(ctx.budget_s * 0.15, SHRINK_CAP - shrink_spent[0]), time.monotonic)
+                    small = minimise(p1, raw_kind, t0 + min(ctx.budget_s * 0.15, SHRINK_CAP - shrink_spent[0]), time.monotonic)
                     shrink_spent[0] += time.monotonic() - t0
                     r2 = evaluate(small, [0]).get(0)
-                    if r2 and r2[0] == kind:
+                    if r2 and r2[0] == raw_kind:
                         detail = r2[1]
                     else:
                         small = p1
                     sig = bucket_name(kind, features(small))
                     known[sig] = (kind, features(small))
                 else:
-                    sig = kind if kind.startswith("crash:") else kind + ":unminimised"
+                    sig = kind if kind.startswith("crash:") or kind == SIBLING_BUCKET else kind + ":unminimised"
             src = program_src(small, [0])
             ctx.violation(sig, {"src": src, "bucket": sig, "qubits": small["cases"][0]["qubits"], "leaf": small["leaf"]},
                           f"{detail}\n--- program\n{src}")
